@@ -6,6 +6,7 @@ import (
 	"strconv"
 	"strings"
 	"testing"
+	"unicode/utf8"
 )
 
 // The numeric models against strconv on every digit-led text of length <= 5
@@ -61,7 +62,7 @@ func TestModels(t *testing.T) {
 		}
 	}
 	gen(nil, 4)
-	cases = append(cases, "  a b  \n", " x　", "x ", "   y   ", "a\xe2\x80", "\xc2", "\x80\x85", "\xe2\x80\xa0\x85")
+	cases = append(cases, "\xf0\x9f\x98\x80", "\xf0\x8f\x98\x80", "\xf4\x90\x80\x80", "\xed\xa0\x80", "\xe0\x9f\xbf", "\xe0\xa0\x80", "\xf4\x8f\xbf\xbf", "\xf5\x80\x80\x80", "\xc1\x80", "\xef\xbf\xbd", "  a b  \n", " x　", "x ", "   y   ", "a\xe2\x80", "\xc2", "\x80\x85", "\xe2\x80\xa0\x85")
 	for _, s := range cases {
 		if g, w := ModelTrimSpace(s), strings.TrimSpace(s); g != w {
 			t.Fatalf("TrimSpace(%q) = %q, want %q", s, g, w)
@@ -77,6 +78,11 @@ func TestModels(t *testing.T) {
 		}
 		if g, w := ModelContains(s, "a\n"), strings.Contains(s, "a\n"); g != w {
 			t.Fatalf("Contains(%q)", s)
+		}
+		if r, n := ExtDecodeRune(s); true {
+			if wr, wn := utf8.DecodeRuneInString(s); r != wr || n != wn {
+				t.Fatalf("DecodeRune(%q) = %x %d, want %x %d", s, r, n, wr, wn)
+			}
 		}
 		for _, c := range []byte{'a', ' ', 0x80, 0} {
 			if g, w := ExtIndexByteString(s, c), strings.IndexByte(s, c); g != w {
